@@ -150,8 +150,9 @@ def _setup_load_config_for_cls(cls_loader,
 
     json_to_dataclass_field = JSON_FIELD_TO_DATACLASS_FIELD[cls]
 
+    # Note: the dump setup (when it runs first) only records the paths of
+    # fields that are also dumped to their path, so always record ours.
     dataclass_field_to_path = DATACLASS_FIELD_TO_JSON_PATH[cls]
-    set_paths = False if dataclass_field_to_path else True
     v1_disabled = config is None or not config.v1
 
     name_to_parser = {}
@@ -170,8 +171,7 @@ def _setup_load_config_for_cls(cls_loader,
             if f.json.path:
                 keys = f.json.keys
                 json_to_dataclass_field[keys[0]] = ExplicitNull
-                if set_paths:
-                    dataclass_field_to_path[f.name] = keys
+                dataclass_field_to_path[f.name] = keys
             else:
                 for key in f.json.keys:
                     json_to_dataclass_field[key] = f.name
@@ -182,8 +182,7 @@ def _setup_load_config_for_cls(cls_loader,
                     if value.path:
                         keys = value.keys
                         json_to_dataclass_field[keys[0]] = ExplicitNull
-                        if set_paths:
-                            dataclass_field_to_path[f.name] = keys
+                        dataclass_field_to_path[f.name] = keys
                     else:
                         for key in value.keys:
                             json_to_dataclass_field[key] = f.name
@@ -205,8 +204,7 @@ def _setup_load_config_for_cls(cls_loader,
                     if extra.path:
                         keys = extra.keys
                         json_to_dataclass_field[keys[0]] = ExplicitNull
-                        if set_paths:
-                            dataclass_field_to_path[f.name] = keys
+                        dataclass_field_to_path[f.name] = keys
                     else:
                         for key in extra.keys:
                             json_to_dataclass_field[key] = f.name
